@@ -804,6 +804,8 @@ func c09(c *Ctx) {
 	c.checkPresenceExact(encs)
 	c.checkPackedCount()
 	c.checkCallbackErrors()
+	c.checkDecoderLoopRuns(decs)
+	c.checkPackedRunConsumed()
 
 	// ---- R9.7
 	n97 := 0
